@@ -115,6 +115,16 @@ fn dump(out: &mut impl Write, tag: &str, af: &AAFramework<usize>) {
             } else {
                 enc.encode_constraints(af, &mut rec);
             }
+            // the solvers reuse one encoder object for every query and every connected component: the same encoder
+            // object must emit the same CNF when asked again (second emission into a fresh solver)
+            let mut rec2 = Rec::default();
+            if range {
+                enc.encode_constraints_and_range(af, &mut rec2);
+            } else {
+                enc.encode_constraints(af, &mut rec2);
+            }
+            let reuse_same = rec2.clauses == rec.clauses && rec2.reserves == rec.reserves;
+            let clauses2: Vec<String> = if reuse_same { vec![] } else { rec2.clauses.iter().map(|c| json_list(c)).collect() };
             let lits: Vec<isize> =
                 af.argument_set().iter().map(|a| isize::from(enc.arg_to_lit(a))).collect();
             let frv: isize = if name == "stable" { -1 } else { enc.first_range_var(n) as isize };
@@ -133,8 +143,8 @@ fn dump(out: &mut impl Write, tag: &str, af: &AAFramework<usize>) {
             let clauses: Vec<String> = rec.clauses.iter().map(|c| json_list(c)).collect();
             writeln!(
                 out,
-                "{{\"tag\":\"{}\",\"encoder\":\"{}\",\"range\":{},\"n\":{},\"ids\":{},\"labels\":{},\"attacks\":[{}],\"n_vars\":{},\"reserves\":{},\"solves\":{},\"clauses\":[{}],\"arg_lits\":{},\"first_range_var\":{},\"onehot\":[{}],\"all_true\":{},\"all_none\":{},\"all_false\":{}}}",
-                tag, name, range, n, json_list(&ids), json_list(&labels), atts.join(","), rec.nv,
+                "{{\"tag\":\"{}\",\"reuse_same\":{},\"clauses_second\":[{}],\"n_vars_second\":{},\"encoder\":\"{}\",\"range\":{},\"n\":{},\"ids\":{},\"labels\":{},\"attacks\":[{}],\"n_vars\":{},\"reserves\":{},\"solves\":{},\"clauses\":[{}],\"arg_lits\":{},\"first_range_var\":{},\"onehot\":[{}],\"all_true\":{},\"all_none\":{},\"all_false\":{}}}",
+                tag, reuse_same, clauses2.join(","), rec2.nv, name, range, n, json_list(&ids), json_list(&labels), atts.join(","), rec.nv,
                 json_list(&rec.reserves), rec.solves, clauses.join(","), json_list(&lits), frv,
                 onehot.join(","), json_list(&all_true), json_list(&all_none), json_list(&all_false)
             )
